@@ -59,11 +59,14 @@ CHECKS = {
         "DESIGN.md §5 C07",
     ),
     "C10": (
-        "Coq proof (refinement of the pruned deque to the grant history + window-bound invariant by induction over histories) tied by in-Coq correspondence on Budget histories",
+        "Coq proof (refinement of the pruned deque to the grant history + window-bound invariant by induction over histories) tied (1) by a fail-closed AST translator that regenerates budget.py as a term of a deep embedding (PyIR.v) on every run, with re-proved obligations that the translated __init__/_prune/consume/remaining compute the model's functions for every input, and (2) by in-Coq correspondence on Budget histories",
         "Theorems C10_refinement / C10_window_bound / C10_refuse_only_when_full / C10_remaining / C10_boundary hold for every "
         "budget size, window and monotone history of the Gallina model of budget.py; the model is compared with /repo's Budget on "
-        "generated and exhaustively enumerated small histories inside Coq on every run.",
-        "Trusted: Coq kernel + vm_compute; hand-written model Budget.v (checked against the code by the correspondence run only); "
+        "generated and exhaustively enumerated small histories inside Coq on every run, and BudgetIR.consume_ir_correct / "
+        "remaining_ir_correct / init_ir_correct / ir_run_correct (re-proved on every run against the freshly translated source) "
+        "state that the translated methods equal the model's consume / remaining / brun on every input.",
+        "Trusted: Coq kernel + vm_compute; pyir_translate.py and the interpreter PyIR.exec (the meaning given to the translated "
+        "Python fragment); hand-written model Budget.v (now also proved equal to the translated source); "
         "Python driver/virtual clock; non-decreasing monotonic clock; 1/64 s time grid (float arithmetic exact).",
         "DESIGN.md §5 C10",
     ),
@@ -72,8 +75,10 @@ CHECKS = {
         "Theorems C13_* (abort_if polled immediately before every attempt and, after the retry decision, before every sleep; a "
         "True answer or AbortRetryError ends the run as aborted with nothing but the `aborted` report after it; cancellation-type "
         "exceptions from the operation, before_sleep or the sleeper end the trace at that call and are delivered unchanged) for "
-        "all configurations/environments of the Gallina model of the retry loop.",
-        RUNNER_NOTE, "DESIGN.md §4 C13",
+        "all configurations/environments of the Gallina model of the retry loop. Under attempt_timeout_s the async runs are tasks "
+        "of a real asyncio loop on virtual time: cancellation is delivered by task.cancel() and work left on the loop after the "
+        "run is made visible in the trace.",
+        RUNNER_NOTE, "DESIGN.md §4 C13, §15",
     ),
     "C16": (
         "Coq proof (the handler/before_sleep/sleeper calls of a pass as a function of its verdict; SLEEP/DEFER/ABORT consequences; override by definition of resolve) tied by in-Coq trace correspondence (projection: handler, before_sleep, sleeper calls with placement, attempt, delay, decision; invocations; delivery kind and next_sleep_s) over all placements and decision sequences",
@@ -88,7 +93,9 @@ CHECKS = {
         "Theorems C04_* (a final pass exists and is the last attempt; success => the value of that attempt; stop on an "
         "exception-caused failure => that attempt's own exception re-raised; stop on a result-caused failure or deferral => "
         "RetryExhaustedError with stop_reason, attempts, last_class, exactly one of last_result/last_exception and next_sleep_s "
-        "describing that attempt) for all configurations/environments of the Gallina model; tracebacks are not modelled.",
+        "describing that attempt) for all configurations/environments of the Gallina model; tracebacks are not modelled. "
+        "attempt_timeout_s is exercised by the correspondence (transparent wrapper; an attempt that hangs is an exception failure "
+        "after exactly the timeout; async runs on a real asyncio loop over virtual time).",
         RUNNER_NOTE, "DESIGN.md §4 C04",
     ),
     "C05": (
@@ -182,7 +189,8 @@ CHECKS = {
         "Coq proof (case analysis over a model of Python's built-in values; tables proved for every integer / every code string; precedence lemmas; regex search characterised) tied by in-Coq equality of all classifier answers on generated exception objects incl. exhaustive integer ranges",
         "Theorems C19_* (marker types win over codes, codes over names, strict ignores names; status table and http table for every "
         "integer; first-int attribute order of http_classifier; SQLSTATE table, attribute before args, fallbacks; optional-library "
-        "classifier = default_classifier when the library is absent) for the Gallina model Classify.v over pyval. Totality is by "
+        "classifier = default_classifier when the library is absent; an int sqlstate beyond CPython's int-to-str digit limit yields "
+        "UNKNOWN) for the Gallina model Classify.v over pyval. Totality is by "
         "construction in the model (total functions); that the code does not raise on this value universe is checked by the "
         "correspondence run. With-library behaviour of the optional classifiers is not claimed.",
         "Trusted: Coq kernel + vm_compute; hand-written model Classify.v (tied by correspondence only); classify_driver.py; the "
@@ -231,7 +239,8 @@ def main():
         "hooks": {
             "guard": "REDRESS_VERIF",
             "enable": "no source hooks are needed: checks import /repo/src as it is (PYTHONPATH=/repo/src) and "
-            "observe it through scripted callbacks, spies and a virtual clock; REDRESS_VERIF=1 is exported but unused",
+            "observe it through scripted callbacks, spies and a virtual clock; REDRESS_VERIF=1 is exported but unused; "
+            "source_commits lists the unguarded `fix:` commits (repairs of genuine defects, see known-findings.txt), not hooks",
             "baseline_off_cmd": "cd /repo && /venv/bin/python -m pytest -ra -q -p no:cacheprovider --timeout=900",
             "source_commits": ["7959b97", "4805882", "e37d3df", "a10e77c", "7a1aae8", "844555a", "ca75464"],
             "add_only": True,
